@@ -52,7 +52,8 @@ mint("u1", "cla", "tkb", "u1", d="badjson")
 ev("EditNFT", "u1", "cla", "tka", u="u257")
 ev("EditNFT", "u1", "cla", "tka", d="badjson")
 ev("TransferNFT", "u1", "cla", "tka", "u1", d="badjson")
-ev("TransferNFT", "u1", "cla", "tka", "u2", u="u257")
+ev("TransferNFT", "u1", "cla", "tka", "u2", u="u257")   # refused since /repo 19c5b32 (F37)
+ev("TransferNFT", "u1", "cla", "tka", "u2")
 # the previous owner, who is also the class's creator, on a token that moved on
 ev("EditNFT", "u1", "cla", "tka", n="z")
 ev("BurnNFT", "u1", "cla", "tka")
